@@ -1,4 +1,5 @@
 import DmrVerif.Lemmas.Codes
+import DmrVerif.Lemmas.Count
 import DmrVerif.Gen.Codes
 
 /-!
@@ -66,15 +67,12 @@ theorem gen_injective {C : Code} (hC : C ∈ codes) (a b : Bits) (ha : a.length 
     (hb : b.length = C.k) (h : C.gen a = C.gen b) : a = b :=
   Code.gen_injective (wf hC) a b ha hb h
 
-theorem message_count (k : Nat) : (allBits k).length = 2 ^ k := by
-  induction k with
-  | zero => simp [allBits]
-  | succ k ih =>
-    have : ∀ l : List Bits, (l.flatMap (fun t => [false :: t, true :: t])).length = 2 * l.length := by
-      intro l; induction l with
-      | nil => simp
-      | cons x xs ih => simp [List.flatMap_cons, ih]; omega
-    simp only [allBits, this, ih]; omega
+theorem message_count (k : Nat) : (allBits k).length = 2 ^ k := allBits_length k
+
+/-- counted outright: of the `2^n` words of length `n` exactly `2^k` pass the checker -/
+theorem accepted_count {C : Code} (hC : C ∈ codes) :
+    (allBits C.n).length = 2 ^ C.n ∧ ((allBits C.n).filter C.check).length = 2 ^ C.k :=
+  ⟨allBits_length C.n, Code.accepted_count (wf hC)⟩
 
 /-- distinct code words differ in at least the advertised minimum distance -/
 theorem min_distance {C : Code} (hC : C ∈ codes) (a b : Bits) (ha : a.length = C.k)
